@@ -85,6 +85,19 @@ func (sfv *seqFunVars) setKeysItem(f slip.Object, s *slip.Scope, args slip.List,
 	}
 }
 
+// checkBounds panics unless start and end are valid bounding indices for a
+// sequence of the given size. An end that was not provided or was nil is set
+// to size.
+func (sfv *seqFunVars) checkBounds(s *slip.Scope, depth int, size int) {
+	if sfv.end < 0 {
+		sfv.end = size
+	}
+	if size < sfv.end || sfv.end < sfv.start {
+		slip.ErrorPanic(s, depth, "bounding indices %d and %d are invalid for sequence of length %d",
+			sfv.start, sfv.end, size)
+	}
+}
+
 func (sfv *seqFunVars) setKeysIf(f slip.Object, s *slip.Scope, args slip.List, depth int) {
 	if sfv.noCount {
 		slip.CheckArgCount(s, depth, f, args, 2, 10)
